@@ -24,8 +24,8 @@ type regConcrete struct {
 }
 
 type regInterface struct {
-	Type reflect.Type
-	Impl []*regConcrete // concrete types whose pointer type implements the interface, ordered by name
+	Type    reflect.Type
+	Impl    []*regConcrete // concrete types whose pointer type implements the interface, ordered by name
 	natural []*regConcrete
 }
 
